@@ -37,6 +37,7 @@ fn main() {
         "util" => cutil::run(seed, n, replay, &mut out),
         "C31" => c31::run(seed, n, replay, &mut out),
         "C02" => c02::run(seed, n, replay, &mut out),
+        "C29" | "C30" => c29::run(seed, n, replay, &mut out, a[1].as_str()),
         other => {
             eprintln!("unknown component {other}");
             std::process::exit(2);
